@@ -8,6 +8,7 @@ import (
 	"errors"
 	"fmt"
 	"io"
+	mrand "math/rand"
 	"os"
 	"sort"
 	"strings"
@@ -160,6 +161,28 @@ func c11GoTrace(log []string, err error, bufLen int, fault string) string {
 	return goTrace
 }
 
+// c11Object builds the objects of the object API over the filesystem rec: an FSWrapper (NewMemoryWrapper, or NewFSWrapper
+// when cs["ctor"] is "os") given rec through SetFS, an EFIFS over it and the Efivarfs handle of EFIFS.Open.  When the case
+// names a "dir0", that directory is the efivars directory while the objects are constructed, and dir is configured
+// afterwards (a program that builds its handle first and learns the mount point of efivarfs later, a test that points
+// the package at a scratch directory after its fixtures were set up).
+func c11Object(cs Case, rec afero.Fs, dir string) (*efivarfs.EFIFS, *efivarfs.Efivarfs) {
+	if d0 := cs.S("dir0"); d0 != "" {
+		attributes.Efivars = d0
+	}
+	var fw *fswrapper.FSWrapper
+	if cs.S("ctor") == "os" {
+		fw = fswrapper.NewFSWrapper()
+	} else {
+		fw = fswrapper.NewMemoryWrapper()
+	}
+	fw.SetFS(rec)
+	e := &efivarfs.EFIFS{FSWrapper: fw}
+	ev := e.Open()
+	attributes.Efivars = dir
+	return e, ev
+}
+
 func c11EvalWrite(c *Ctx, cs Case) {
 	dir := cs.S("dir")
 	name := string(unhx(cs.S("name")))
@@ -177,6 +200,19 @@ func c11EvalWrite(c *Ctx, cs Case) {
 	if fault != "" {
 		rec.faultK, rec.kind = faultK, fault
 	}
+	// "fs": the kind of filesystem the library is given.  "" - afero's MemMapFs, which creates missing directories on
+	// its own; "strict" - a filesystem that does not (as the machine's own do) and in which the efivars directory
+	// exists: nothing changes for the write; "no-dir" - such a filesystem WITHOUT the efivars directory (efivarfs not
+	// mounted, a wrong directory configured): the one OpenFile of the contract fails with a not-exist error, which is
+	// the OpenFile fault at call 0 of the cases above, produced by the filesystem's state instead of by injection - and
+	// it would fail again only as long as the directory is absent
+	fskind := cs.S("fs")
+	if fskind == "strict" || fskind == "no-dir" {
+		rec.noParents = true
+	}
+	if fskind == "no-dir" && fault == "" {
+		fault, faultK = "error", 0
+	}
 	// "@real": an efivars directory that exists on the machine's own filesystem while the library is given an
 	// in-memory afero.Fs - the write may touch the file in the filesystem it was given and nothing else
 	realDir := ""
@@ -188,20 +224,24 @@ func c11EvalWrite(c *Ctx, cs Case) {
 		defer os.RemoveAll(d)
 		realDir, dir = d, d
 	}
+	if fskind == "strict" {
+		rec.inner.MkdirAll(dir, 0o755)
+	}
 	oldDir := attributes.Efivars
 	attributes.Efivars = dir
 	defer func() { attributes.Efivars = oldDir }()
 	var err error
 	pan, msg := safely(func() {
 		if api == "object" || signed {
-			fw := fswrapper.NewMemoryWrapper()
-			fw.SetFS(rec)
-			e := &efivarfs.EFIFS{FSWrapper: fw}
+			// "dir0": the efivars directory in force while the FSWrapper / EFIFS / Efivarfs objects were constructed; the
+			// directory of the case is configured afterwards, before the call.  The file of the contract is the one under
+			// the efivars directory, i.e. the directory at the time of the write.
+			e, ev := c11Object(cs, rec, dir)
 			def := efivar.Efivar{Name: name, GUID: &g, Attributes: attributes.Attributes(attrs)}
 			if signed {
 				// the caller-level signed update of the same definition: what reaches the file is the definition's mask
 				// followed by the signed update of the value
-				err = e.Open().WriteSignedUpdate(def, rawValue(value), poolKey(c, 2048, 0), c11SignCert(c))
+				err = ev.WriteSignedUpdate(def, rawValue(value), poolKey(c, 2048, 0), c11SignCert(c))
 			} else {
 				err = e.WriteVar(def, rawValue(value))
 			}
@@ -240,6 +280,19 @@ func c11EvalWrite(c *Ctx, cs Case) {
 	// ---- the efivarfs contract, from the property statement ----
 	wantPath := dir + "/" + name + "-" + canonGUIDText(g)
 	written := c11CheckWriteLog(log, wantPath, attrs, value, signed, fault != "", fail)
+	if fskind == "no-dir" {
+		// the one open failed: the write "touches nothing else", so the filesystem is as empty as it was
+		var left []string
+		afero.Walk(rec.inner, "/", func(p string, info os.FileInfo, werr error) error {
+			if werr == nil && info != nil && p != "/" && p != "" {
+				left = append(left, p)
+			}
+			return nil
+		})
+		if len(left) > 0 {
+			fail("the efivars directory does not exist, the open of the variable's file failed, and afterwards the filesystem holds ["+strings.Join(left, " ")+"]: the write created what it was not asked to", "an empty filesystem and an error")
+		}
+	}
 	// ... and the filesystem itself, looked at beside the library: after a write on a healthy filesystem it holds exactly
 	// one file, <efivars directory>/<Name>-<canonical lower-case GUID>, whose content is the buffer of the contract
 	if fault == "" && err == nil {
@@ -455,6 +508,11 @@ func c11EvalRead(c *Ctx, cs Case) {
 		mem.MkdirAll(dir, 0o755)
 		afero.WriteFile(mem, path, stored, 0o644)
 	}
+	if f0, d0 := cs.S("file0"), cs.S("dir0"); f0 != "" && d0 != "" {
+		// a file of that name under the directory that was the efivars directory EARLIER is not the variable's file
+		mem.MkdirAll(d0, 0o755)
+		afero.WriteFile(mem, d0+"/"+name+"-"+canonGUIDText(g), unhx(f0), 0o644)
+	}
 	rec := newRecFs(mem)
 	rec.chunk = int(cs.I("chunk")) // the file delivers at most that many bytes per Read (0: as many as asked for)
 	oldDir := attributes.Efivars
@@ -469,9 +527,7 @@ func c11EvalRead(c *Ctx, cs Case) {
 	var err error
 	pan, msg := safely(func() {
 		if api == "object" {
-			fw := fswrapper.NewMemoryWrapper()
-			fw.SetFS(rec)
-			e := &efivarfs.EFIFS{FSWrapper: fw}
+			e, _ := c11Object(cs, rec, dir) // with "dir0": objects constructed under another efivars directory
 			got, err = e.GetVarWithAttributes(efivar.Efivar{Name: name, GUID: &g, Attributes: attributes.Attributes(required)}, &pv)
 			return
 		}
@@ -942,6 +998,92 @@ func predefinedEfivars() []efivar.Efivar {
 }
 
 func c11Gen(c *Ctx) {
+	c11GenBase(c)
+	if c.NFailures() < 6 {
+		c11GenDirectories(c)
+	}
+}
+
+// c11GenDirectories: "any efivars directory" is a configuration that has a history of its own, and a state in the
+// filesystem.  (1) THE DIRECTORY CHANGES DURING THE LIFE OF THE OBJECTS: the FSWrapper (NewMemoryWrapper / NewFSWrapper +
+// SetFS), the EFIFS over it and the Efivarfs handle are constructed while attributes.Efivars names one directory, then
+// another directory is configured, then the variable is written (WriteVar, WriteSignedUpdate) or read
+// (GetVarWithAttributes) through the objects: the file of the contract is <efivars directory>/<Name>-<GUID> with the
+// directory in force at the call - same oracles as every other write / read (call trace, the one file the filesystem
+// holds afterwards, the value read from the file placed under the current directory; a file placed under the EARLIER
+// directory instead is an absent variable).  (2) THE DIRECTORY DOES NOT EXIST, on a filesystem that does not create
+// missing directories by itself (as real filesystems, afero.OsFs and BasePathFs do not; MemMapFs does): the single
+// OpenFile fails with a not-exist error; the write must report an error after that one call, and the filesystem must
+// be as empty as before - through the object API and both legacy entry points, for every kind of value and with /
+// without APPEND_WRITE.  The same filesystem WITH the directory present behaves as the healthy one.
+func c11GenDirectories(c *Ctx) {
+	sub := &Ctx{Rng: mrand.New(mrand.NewSource(c.Seed*86028121 + 29 + int64(c.Shard)*1000003)), Thorough: c.Thorough}
+	u := newC09Universe(sub)
+	db := encodeList(tSHA256, nil, 48, [][2][]byte{{u.owners[0], u.data[0]}})
+	values := map[string][]byte{"empty": nil, "bool": {1}, "string": util.MarshalUtf16Var("arch-linux.efi"), "database": db, "raw": randBytes(sub, 200)}
+	vk := []string{"empty", "bool", "string", "database", "raw"}
+	dirs := []string{"/sys/firmware/efi/efivars", "/tmp/efivars", "/e", "/run/scratch/efi/efivars", "/sys/firmware/efi/efivars/sub"}
+	type def struct {
+		name  string
+		guid  util.EFIGUID
+		attrs uint32
+	}
+	var defs []def
+	for _, v := range predefinedEfivars() {
+		defs = append(defs, def{v.Name, *v.GUID, uint32(v.Attributes)})
+	}
+	for i := 0; i < c.N(25, 2000); i++ {
+		n := []string{"x", "MyVar", "Boot0001", "a-b-c", "UPPER_lower.9"}[sub.Rng.Intn(5)]
+		a := sub.Rng.Uint32() & 0xff
+		defs = append(defs, def{n, guidFromWire(randBytes(sub, 16)), a})
+	}
+	global := util.EFIGUID{Data1: 0x8be4df61, Data2: 0x93ca, Data3: 0x11d2, Data4: [8]byte{0xaa, 0x0d, 0x00, 0xe0, 0x98, 0x03, 0x2b, 0x8c}}
+	for i, d := range defs {
+		if c.NFailures() >= 6 {
+			return
+		}
+		k := vk[i%len(vk)]
+		dir := dirs[i%len(dirs)]
+		dir0 := dirs[(i+1+(i/len(dirs))%(len(dirs)-1))%len(dirs)] // another one of the directories
+		ctor := []string{"mem", "os"}[(i/2)%2]
+		base := func(extra Case) Case {
+			cs := Case{"name": hx([]byte(d.name)), "guid": hx(wireGUID(d.guid)), "dir": dir}
+			for k, v := range extra {
+				cs[k] = v
+			}
+			return cs
+		}
+		// (1) objects constructed under dir0, used under dir
+		for _, api := range []string{"object", "object-signed"} {
+			if api == "object-signed" && i%3 != 0 && !c.Thorough {
+				continue
+			}
+			c11EvalWrite(c, base(Case{"op": "write", "api": api, "class": k + "/dir-changed-after-construction", "dir0": dir0, "ctor": ctor, "attrs": int64(d.attrs), "value": hx(values[k])}))
+		}
+		file := make([]byte, 4)
+		binary.LittleEndian.PutUint32(file, d.attrs|0x80)
+		file = append(file, values[k]...)
+		c11EvalRead(c, base(Case{"op": "read", "class": "mask-superset/dir-changed-after-construction", "dir0": dir0, "ctor": ctor, "required": int64(d.attrs), "file": hx(file)}))
+		c11EvalRead(c, base(Case{"op": "read", "class": "absent/dir-changed-after-construction", "dir0": dir0, "ctor": ctor, "required": int64(d.attrs), "file": "absent", "file0": hx(file)}))
+		// (2) a filesystem that does not create directories: with and without the efivars directory
+		apis := []string{"object", "legacy"}
+		if d.guid == global {
+			apis = append(apis, "legacy-name")
+		}
+		for j, api := range apis {
+			attrs := d.attrs
+			if (i+j)%2 == 1 {
+				attrs |= 0x40
+			}
+			c11EvalWrite(c, base(Case{"op": "write", "api": api, "class": k + "/no-efivars-directory", "fs": "no-dir", "attrs": int64(attrs), "value": hx(values[k])}))
+			if i%3 == 0 || c.Thorough {
+				c11EvalWrite(c, base(Case{"op": "write", "api": api, "class": k + "/strict-fs", "fs": "strict", "attrs": int64(attrs), "value": hx(values[k])}))
+			}
+		}
+	}
+}
+
+func c11GenBase(c *Ctx) {
 	u := newC09Universe(c)
 	db := encodeList(tSHA256, nil, 48, [][2][]byte{{u.owners[0], u.data[0]}})
 	values := map[string][]byte{"empty": nil, "bool": {1}, "string": util.MarshalUtf16Var("arch-linux.efi"), "database": db, "raw": randBytes(c, 200)}
@@ -1281,7 +1423,7 @@ func c11Gen(c *Ctx) {
 
 func init() {
 	register("C11", &PropDef{
-		Rule:   "every predefined efivar.Efivar (25, each also with APPEND_WRITE added), random (name, GUID, attribute) definitions and definitions whose NAME is not file-name-like on its own - the empty name (zero value of Efivar.Name), '.', '..', '...', names with a leading / trailing dot, a blank, a dash, names with '/' in them and names whose last '/'-separated element is empty, '.' or '..' (x/., x/.., MyVar/., Boot/), each under a GUID of its own and the first five also under the global-variable GUID: the file is <efivars directory>/<Name>-<GUID> with the name as it is (only the composed file name is a path) - x values {empty, boolean, UTF-16 string, signature database, raw} x three efivars directories x the object API (EFIFS over FSWrapper.SetFS) and the legacy attributes.* API (fs.SetFS), on a recording afero.Fs, healthy and with one failing or short call (OpenFile error, Write error, Write one byte short, Write of zero bytes, Close error); every definition's value is also written as a SIGNED update (Efivarfs.WriteSignedUpdate over the EFIFS, RSA-2048): one write to the definition's file with the definition's flags whose buffer is the DEFINITION's 4-byte mask (with or without the time-based-authentication / append bits) followed by an authentication descriptor (by extent) and the value; after every write on a healthy filesystem the filesystem itself is inspected beside the library: it holds exactly ONE file, <efivars directory>/<Name>-<canonical lower-case GUID>, whose content is the mask followed by the encoded value; reads with stored masks {equal, superset, subset, disjoint} and absent / 0..3-byte files (the file placed at that path beside the library), with a probe value that records whether decoding was attempted. The legacy by-name API (attributes.WriteEfivars / ReadEfivars, which derives the vendor GUID from the name): every predefined definition under the global or image-security-database GUID, the four database names db/dbx/dbt/dbr, and suffix / truncation / case variations of all of them (not database names unless they coincide with one), written (also with APPEND_WRITE and with the faults) and read (also through ReadEfivarsWithGuid) against the file <Name>-<GUID of the definition>. The typed accessors (GetPK, GetKEK, Getdb, Getdbx, GetSetupMode, GetSecureBoot, GetBootOrder, GetLoaderEntrySelected, GetBootEntry) against the file of their own definition: only that file is opened, stored masks equal / superset / lacking one required attribute, absent and short files, values of their kind decoded beside the library; GetBootEntry, which reads the variable of the NAME it is given, also with the empty name, '.', '..' and Boot/.. . ParseEfivars (both twins) with the true size and sizes below four is held to the statement directly, other declared sizes only to the translated code. Writes in flight at once: 90 (thorough 3000) cases of 2..3 goroutines that each write a different variable (values: empty, boolean, boot order, UTF-16 string, 1..96 and 100..500 raw bytes; one shared attribute mask in two cases of three) on ONE caller-supplied filesystem whose Write parks until every writer has reached its own Write - the writers are started one after the other, each when the one before is parked, so the interleaving is always the same - through one shared EFIFS, one EFIFS / FSWrapper per writer, or the legacy package-level API: each write must do on its file exactly what it does alone (one OpenFile with its flags, one Write of ITS mask and ITS value, Close; the file holds them afterwards) and nothing else is touched. Value sizes: buffers of 2^k-1, 2^k, 2^k+1 bytes (k = 9, 12, 13, 16; thorough also 15) and SHA-256 databases of 100 / 400 / 1000 (thorough 3000) entries through every API, healthy and faulted, and read back. Held results: sequences of 2..8 (thorough ..20) reads and writes of 1..4 variables (values of 0..2000 bytes that grow, shrink and repeat; masks equal / superset / lacking a required attribute; absent and short files) through ONE EFIFS / FSWrapper and the one legacy filesystem, every read through one of GetVar and GetVarWithAttributes (with an Unmarshallable that keeps the bytes it is handed, without copying), FSWrapper.ReadEfivarsWithGuid, FSWrapper.ReadEfivarsFile and attributes.ReadEfivarsWithGuid (the returned *bytes.Buffer is kept): each read is compared with the bytes the file holds at that moment and with the Lean model, and every value handed out by an earlier read is compared again after every later read and write (of another variable, or of the same one after a new write) and must still be the value that was read. Every case is non-trivial; distinct = distinct cases.",
+		Rule:   "every predefined efivar.Efivar (25, each also with APPEND_WRITE added), random (name, GUID, attribute) definitions and definitions whose NAME is not file-name-like on its own - the empty name (zero value of Efivar.Name), '.', '..', '...', names with a leading / trailing dot, a blank, a dash, names with '/' in them and names whose last '/'-separated element is empty, '.' or '..' (x/., x/.., MyVar/., Boot/), each under a GUID of its own and the first five also under the global-variable GUID: the file is <efivars directory>/<Name>-<GUID> with the name as it is (only the composed file name is a path) - x values {empty, boolean, UTF-16 string, signature database, raw} x three efivars directories x the object API (EFIFS over FSWrapper.SetFS) and the legacy attributes.* API (fs.SetFS), on a recording afero.Fs, healthy and with one failing or short call (OpenFile error, Write error, Write one byte short, Write of zero bytes, Close error); every definition's value is also written as a SIGNED update (Efivarfs.WriteSignedUpdate over the EFIFS, RSA-2048): one write to the definition's file with the definition's flags whose buffer is the DEFINITION's 4-byte mask (with or without the time-based-authentication / append bits) followed by an authentication descriptor (by extent) and the value; after every write on a healthy filesystem the filesystem itself is inspected beside the library: it holds exactly ONE file, <efivars directory>/<Name>-<canonical lower-case GUID>, whose content is the mask followed by the encoded value; reads with stored masks {equal, superset, subset, disjoint} and absent / 0..3-byte files (the file placed at that path beside the library), with a probe value that records whether decoding was attempted. The legacy by-name API (attributes.WriteEfivars / ReadEfivars, which derives the vendor GUID from the name): every predefined definition under the global or image-security-database GUID, the four database names db/dbx/dbt/dbr, and suffix / truncation / case variations of all of them (not database names unless they coincide with one), written (also with APPEND_WRITE and with the faults) and read (also through ReadEfivarsWithGuid) against the file <Name>-<GUID of the definition>. The typed accessors (GetPK, GetKEK, Getdb, Getdbx, GetSetupMode, GetSecureBoot, GetBootOrder, GetLoaderEntrySelected, GetBootEntry) against the file of their own definition: only that file is opened, stored masks equal / superset / lacking one required attribute, absent and short files, values of their kind decoded beside the library; GetBootEntry, which reads the variable of the NAME it is given, also with the empty name, '.', '..' and Boot/.. . ParseEfivars (both twins) with the true size and sizes below four is held to the statement directly, other declared sizes only to the translated code. Writes in flight at once: 90 (thorough 3000) cases of 2..3 goroutines that each write a different variable (values: empty, boolean, boot order, UTF-16 string, 1..96 and 100..500 raw bytes; one shared attribute mask in two cases of three) on ONE caller-supplied filesystem whose Write parks until every writer has reached its own Write - the writers are started one after the other, each when the one before is parked, so the interleaving is always the same - through one shared EFIFS, one EFIFS / FSWrapper per writer, or the legacy package-level API: each write must do on its file exactly what it does alone (one OpenFile with its flags, one Write of ITS mask and ITS value, Close; the file holds them afterwards) and nothing else is touched. Value sizes: buffers of 2^k-1, 2^k, 2^k+1 bytes (k = 9, 12, 13, 16; thorough also 15) and SHA-256 databases of 100 / 400 / 1000 (thorough 3000) entries through every API, healthy and faulted, and read back. EFIVARS DIRECTORY WITH A HISTORY AND A STATE (every predefined definition and 25 random ones, thorough 2000; five directories): (1) the FSWrapper (NewMemoryWrapper or NewFSWrapper, given the recording filesystem through SetFS), the EFIFS over it and the Efivarfs handle are CONSTRUCTED while attributes.Efivars names one directory, then another directory is configured, then the variable is written (WriteVar, WriteSignedUpdate) or read (GetVarWithAttributes; the file under the current directory, or only a file under the earlier directory = an absent variable) through these objects - the file of the contract is the one under the efivars directory in force at the call, judged by the same trace / filesystem-content / read oracles; (2) the filesystem does NOT create missing directories by itself (as real filesystems, afero.OsFs and BasePathFs do not; OpenFile with O_CREATE below an absent directory fails with a not-exist error for as long as the directory is absent) and the efivars directory does not exist: object API, legacy WriteEfivarsWithGuid and by-name WriteEfivars, with / without APPEND_WRITE - the write must report an error after its ONE OpenFile (no second open, no mkdir, no other call) and leave the filesystem empty; the same filesystem with the directory present must behave as the healthy one. Held results: sequences of 2..8 (thorough ..20) reads and writes of 1..4 variables (values of 0..2000 bytes that grow, shrink and repeat; masks equal / superset / lacking a required attribute; absent and short files) through ONE EFIFS / FSWrapper and the one legacy filesystem, every read through one of GetVar and GetVarWithAttributes (with an Unmarshallable that keeps the bytes it is handed, without copying), FSWrapper.ReadEfivarsWithGuid, FSWrapper.ReadEfivarsFile and attributes.ReadEfivarsWithGuid (the returned *bytes.Buffer is kept): each read is compared with the bytes the file holds at that moment and with the Lean model, and every value handed out by an earlier read is compared again after every later read and write (of another variable, or of the same one after a new write) and must still be the value that was read. Every case is non-trivial; distinct = distinct cases.",
 		Assume: []string{"no '/'-separated element of a variable name other than its last one is empty, '.' or '..' (names such as '/x', 'a//b', 'a/./b', 'a/../b': path.Join rewrites the composed file name <Name>-<GUID> itself; the last element, to which the GUID suffix is attached, may be anything, the empty name included), names contain no NUL, and the efivars directory is a clean absolute path; the legacy by-name API is exercised with names without '/' only", "with a filesystem other than the in-memory one the legacy writer additionally probes the immutable flag of the same path on the operating system's filesystem (attr.IsImmutable, which opens with O_CREATE); with the operating system's own filesystem that is the file being written. With the in-memory filesystem nothing outside it may be touched: the real-dir cases check that against a directory that exists on the machine (F34)"},
 		Eval:   c11Eval, Gen: c11Gen,
 	})
